@@ -126,6 +126,8 @@ def ordered_lines(t, combo, flags, order):
     fl = ["%d = N %d 0" % (t, f) for f in flags]
     if order == "twice":  # a flag written twice is still one flag (the note IS flagged)
         return lanes + fl + fl[::-1]
+    if order == "length":  # a flag line is a flag line whatever its length field says (C03: it contributes no length)
+        return lanes + ["%d = N %d %d" % (t, f, 96 + f) for f in flags]
     if order == "after" or not combo or not fl:
         return lanes + fl
     if order == "before":
@@ -141,7 +143,7 @@ def _order_shard(ctx, r, fpi):
         for fb in FLAGS:
             if not fa and not fb:
                 continue
-            for order in ("before", "between", "twice"):
+            for order in ("before", "between") + (("twice", "length") if r == 192 else ()):
                 ctx.node()
                 body = note_lines(0, (0,))
                 exp = ["STRUM"]
@@ -160,7 +162,7 @@ def _order_shard(ctx, r, fpi):
                 ctx.hist["flag_order_tracks"] += 1
                 if got != exp:
                     k = next((i for i in range(min(len(exp), len(got))) if got[i] != exp[i]), 0) if isinstance(got, list) and got[:1] != ["raises"] else 0
-                    e1.report(ctx, "decision-packed", text, PROBE_SRC, [exp], got if len(str(got)) < 300 else str(got)[:300], "resolution %d distance %d flags %r/%r with the flag lines written %s the lane lines / twice (first difference at note %d)" % (r, d, fa, fb, order, k))
+                    e1.report(ctx, "decision-packed", text, PROBE_SRC, [exp], got if len(str(got)) < 300 else str(got)[:300], "resolution %d distance %d flags %r/%r with the flag lines written %s the lane lines / twice / with a length (first difference at note %d)" % (r, d, fa, fb, order, k))
 
 
 HEADER_PROBE = '''
